@@ -73,6 +73,7 @@ class Unit:
         self.name = os.path.splitext(os.path.basename(path))[0]
         self.items = []      # ('class', name, tu) ('opaque', names) ('global', names) ('fn', Fn)
         self.obs = []
+        self.autostub = False
         self.pre0 = []
         self.pre = []
         self.post = []
@@ -145,6 +146,8 @@ class Unit:
                 self.obs.append(Ob(rest[0], d, fl))
             elif cmd == 'lowered':
                 where = self.post
+            elif cmd == 'autostub':
+                self.autostub = True
             elif cmd == 'structs':
                 self.pre0 = self.pre
                 self.pre = []
@@ -170,6 +173,8 @@ class Unit:
             elif it[0] == 'global':
                 tus.add(it[2])
         tus.discard(None)
+        if self.autostub:
+            lw.complete = {it[1] for it in self.items if it[0] == 'class'}
         out = []
         out.append('/* generated by /verif/tools/unit.py from %s -- do not edit */' % os.path.relpath(self.path, HERE))
         out.append('#include "prelude.h"')
@@ -199,6 +204,7 @@ class Unit:
                     out.append('typedef struct %s %s;' % (n, n))
         for _, cn, ctu in classes:
             out.append('typedef struct %s %s;' % (cn, cn))
+        out.append('@@AUTO_OPAQUE@@')
         out.extend(self.pre0)
         statics_emitted = {}
         for _, cn, ctu in classes:
@@ -247,6 +253,24 @@ class Unit:
         out.append('/* ---- prototypes ---- */')
         for r in lowered:
             out.append(r['proto'] + ';')
+        info['autostubs'] = []
+        info['calls_by_fn'] = {k: sorted(v) for k, v in lw.calls_by_fn.items()}
+        if self.autostub:
+            have = {r['name'] for r in lowered}
+            alltext = '\n'.join(self.pre0 + self.pre + self.post)
+            out.append('/* ---- auto-generated unreachable stubs: reaching one fails its assertion, so a green slice obligation proves the call sites unreachable ---- */')
+            for cal in sorted(lw.calls):
+                if cal in have or re.search(r'\b%s\s*\(' % re.escape(cal), alltext):
+                    continue
+                if re.match(r'^(saveValue__|loadValue__|vstream__|vec_)', cal):
+                    continue   # defined by the shims in contracts/include
+                sig = lw.calls[cal]
+                if sig is None:
+                    continue
+                ret, ps = sig
+                out.append('%s %s(%s) { __CPROVER_assert(0, "unreachable stub %s called"); __CPROVER_assume(0); }' % (
+                    ret, cal, ', '.join('%s a%d' % (p_, i_) for i_, p_ in enumerate(ps)) or 'void', cal))
+                info['autostubs'].append(cal)
         out.append('/* ---- lowered functions (real bodies, see #line) ---- */')
         for r in lowered:
             out.append(r['text'])
@@ -254,6 +278,19 @@ class Unit:
                                           line=r['line'], loops=r['nloops'], loop_contracts=r['loop_contracts'],
                                           contract=r['contract'], edits=r['edits'], cut=r['cut']))
         info['dropped'] = ['%s: %s' % x for x in lw.dropped]
+        known = {cn for _, cn, _ in classes}
+        for it in self.items:
+            if it[0] == 'opaque':
+                known.update(it[1])
+        alltext0 = '\n'.join(self.pre0 + self.pre)
+        auto = []
+        for tn in sorted(L.TYPE_NAMES):
+            if tn in known or tn.startswith('vec_') or tn == 'vstream':
+                continue
+            if re.search(r'\b(struct|typedef)\b[^;]*\b%s\b' % re.escape(tn), alltext0):
+                continue
+            auto.append('typedef struct %s %s;' % (tn, tn))
+        out[out.index('@@AUTO_OPAQUE@@')] = '\n'.join(auto)
         out.append('#line 1 "%s"' % self.path)
         # keep harness line numbers: post starts after the marker; not critical
         out.extend(self.post)
